@@ -371,6 +371,8 @@ class Gen:
         self.identity_calls = set()     # wrappers that do not change the bytes (X::from_le_bytes, .as_le_bytes(), ...)
         self.big = None                 # big-integer mode: dict(be=, into=, gen_params=set(), prime_params=set()) or None
         self.loop_depth = 0             # >0 while translating a `for` body: `return e` leaves the loop with (inl e)
+        self.cipher_calls = {}          # free fn f(data, key, &mut a, &mut b): name -> translated per-byte step (folded over data)
+        self.self_pure_calls = {}       # `self.m()` without arguments standing for a pure modelled value: name -> (gallina term, type)
         self.struct_params = {}         # parameter name -> [field names]: a `&Struct` parameter passed as its fields (env keys "p.f")
         self.param_method_calls = {}    # method on a struct parameter -> (translated method taking all its fields then the args, result type)
         self.struct_method_calls = {}   # read-only method on a local struct value -> (translated fn, number of fields, indices passed, result type)
@@ -465,12 +467,19 @@ class Gen:
             return k("tt", "unit")
         if kind == "id" and e[1] in self.enums:
             return k(self.enums[e[1]], "enum")
+        if kind == "strlit":            # a string literal used as bytes (chain_update(":")): its UTF-8 encoding
+            if "\\" in e[1]: raise Untranslatable("string literal with an escape")
+            bs = e[1].encode("utf-8")
+            return k("[" + "; ".join(str(b) for b in bs) + "]", ("arr", "u8"))
         if kind == "id" and e[1] in ("true", "false") and e[1] not in self.env:
             return k(e[1], "bool")
         if kind == "id" and e[1] == "None":
             return k("None", ("opt", None))
         if kind == "fncall" and e[1] == "Some" and len(e[2]) == 1:
             return self.expr(e[2][0], lambda t, tt: k("(Some %s)" % t, ("opt", tt)))
+        if kind == "id" and e[1] in self.struct_params and e[1] not in self.env:      # the whole struct parameter as a value
+            fs_ = [self.env["%s.%s" % (e[1], f_)][0] for f_ in self.struct_params[e[1]]]
+            return k("(" + ", ".join(fs_) + ")" if len(fs_) > 1 else fs_[0], ("struct", e[1]))
         if kind == "id" and e[1] == "self" and self.self_tuple is not None:
             return k(self.self_tuple, "selfvalue")
         if kind == "id":
@@ -485,6 +494,8 @@ class Gen:
                 key = "self." + e[2]
                 if key in self.env:
                     g, t = self.env[key]; return k(g, t)
+            if e[1][0] == "id" and e[1][1] in self.struct_params and e[2] in self.struct_params[e[1][1]]:
+                g, t = self.env["%s.%s" % (e[1][1], e[2])]; return k(g, t)
             raise Untranslatable("field access %r" % (e,))
         if kind == "cast":
             ty = e[2]
@@ -512,6 +523,7 @@ class Gen:
             order = self.structs[name]
             if set(given) != set(order): raise Untranslatable("fields of %s: %s" % (name, sorted(given)))
             def gos(i, acc):
+                if i == len(order) and not acc: return k("tt", ("struct", name))
                 if i == len(order): return k("(" + ", ".join(acc) + ")" if len(acc) > 1 else acc[0], ("struct", name))
                 return self.expr(given[order[i]], lambda t, tt: gos(i + 1, acc + [t]))
             return gos(0, [])
@@ -769,6 +781,30 @@ class Gen:
                     if rk in B.get("gen_params", ()): return k("(Z.of_N %s)" % self.env[rk][0], "big")
                     if rk in B.get("prime_params", ()): return k("(from_bytes_le %s)" % self.env[rk][0], "big")
                     raise Untranslatable(".to_bigint() of %r" % (recv,))
+                if name == "to_bytes_le" and not args:
+                    def ktb(a, ta):
+                        if ta != "big": raise Untranslatable(".to_bytes_le() of a non-integer")
+                        return k("(to_bytes_le %s %s)" % (B["be"], a), ("arr", "u8"))
+                    return self.expr(recv, ktb)
+                if name == "to_vec" and not args:
+                    def ktv(a, ta):
+                        if not (isinstance(ta, tuple) and ta[0] == "arr"): raise Untranslatable(".to_vec() of %s" % (ta,))
+                        return k(a, ta)
+                    return self.expr(recv, ktv)
+                if name == "is_zero" and not args:
+                    def kiz(a, ta):
+                        if ta != "big": raise Untranslatable(".is_zero() of a non-integer")
+                        return k("(is_zero %s)" % a, "bool")
+                    return self.expr(recv, kiz)
+                if name == "mod_large_safe_prime_is_zero" and len(args) == 1:
+                    # (&self.value % large_safe_prime.to_bigint().value) == 0: the remainder panics on a zero modulus
+                    pk_ = self.lhs_key(args[0])
+                    if pk_ not in B.get("prime_params", ()): raise Untranslatable("modulus of mod_large_safe_prime_is_zero")
+                    def kmz(a, ta):
+                        if ta != "big": raise Untranslatable("mod_large_safe_prime_is_zero of a non-integer")
+                        v_ = self.fresh("r")
+                        return "match rem %s (from_bytes_le %s) with Ok %s =>\n  %s | _ => None end" % (a, self.env[pk_][0], v_, k("(is_zero %s)" % v_, "bool"))
+                    return self.expr(recv, kmz)
                 if name == "modpow" and len(args) == 2:
                     def kb0(a, ta):
                         def kb1(e_, te):
@@ -833,6 +869,8 @@ class Gen:
                     if BITS[tgt] < BITS[ta]: raise Untranslatable("narrowing .into()")
                     return k(a, tgt)
                 return self.expr(recv, ki)
+            if recv == ("id", "self") and name in self.self_pure_calls and not args:
+                tm_, ty_ = self.self_pure_calls[name]; return k(tm_, ty_)
             if recv == ("id", "self") and name in self.self_calls:
                 spec = self.self_calls[name]
                 fn_, keys = spec[0], spec[1]
@@ -848,7 +886,19 @@ class Gen:
             if recv == ("id", "self") and name in self.helpers:
                 params, body = self.helpers[name]
                 if len(params) != len(args): raise Untranslatable("helper arity %s" % name)
-                if args: raise Untranslatable("helper with arguments %s" % name)
+                if args:
+                    amap = {}
+                    for (pn_, _pt), a_ in zip(params, args):
+                        while a_[0] in ("deref", "paren"): a_ = a_[1]
+                        if a_[0] != "id": raise Untranslatable("helper %s called with a compound argument" % name)
+                        amap[pn_] = a_
+                    def subh(n):
+                        if isinstance(n, tuple):
+                            if n[0] == "id" and n[1] in amap: return amap[n[1]]
+                            return tuple(subh(c) for c in n)
+                        if isinstance(n, list): return [subh(c) for c in n]
+                        return n
+                    return self.expr(subh(body), k, want)
                 return self.expr(body, k, want)
             raise Untranslatable("method call .%s(..)" % name)
         if kind == "if":
@@ -1167,12 +1217,14 @@ class Gen:
             spec_ = self.mut_method_calls[s[1][2]]
             fn_, nf = spec_[0], spec_[1]
             g, ty = self.env[self.lhs_key(s[1][1])]
-            if len(spec_) > 2 and spec_[2] == "slice":        # x.m(&mut data): a translated per-element body folded over the slice
+            if len(spec_) > 2 and spec_[2] in ("slice", "whole"):        # x.m(&mut data): a translated per-element body folded over the slice
                 a0 = s[1][3][0] if len(s[1][3]) == 1 else None
                 while a0 is not None and a0[0] == "call" and a0[2] in ("as_mut_slice",) and not a0[3]: a0 = a0[1]
                 akey = self.lhs_key(a0) if a0 is not None else None
                 if akey is None or akey not in self.env: raise Untranslatable("slice argument of %s" % s[1][2])
                 ag, _ = self.env[akey]
+                if spec_[2] == "whole":
+                    return "match %s %s %s with None => None | Some (%s, _, %s) =>\n  %s end" % (fn_, g, ag, g, ag, self.stmts(rest, final))
                 return "match slice_loop %s %s %s with None => None | Some (%s, %s) =>\n  %s end" % (fn_, g, ag, g, ag, self.stmts(rest, final))
             fs = [self.fresh("f") for _ in range(nf)]
             def goa(i, acc):
@@ -1189,6 +1241,13 @@ class Gen:
                 if s[1][2] == "consume": return "let %s := %s ++ %s in\n  %s" % (g, g, d, self.stmts(rest, final))
                 return "let %s := (fst %s, snd %s ++ %s) in\n  %s" % (g, g, g, d, self.stmts(rest, final))
             return self.expr(s[1][3][0], khu)
+        if s[0] == "expr_stmt" and s[1][0] == "fncall" and s[1][1] in self.cipher_calls and len(s[1][2]) == 4:
+            step = self.cipher_calls[s[1][1]]
+            dk, kk_, ak, bk = [self.lhs_key(a_) for a_ in s[1][2]]
+            if any(x is None or x not in self.env for x in (dk, kk_, ak, bk)): raise Untranslatable("arguments of %s" % s[1][1])
+            dg, kg, ag, bg = [self.env[x][0] for x in (dk, kk_, ak, bk)]
+            return ("match slice_loop (%s %s) (%s, %s) %s with None => None | Some ((%s, %s), %s) =>\n  %s end"
+                    % (step, kg, ag, bg, dg, ag, bg, dg, self.stmts(rest, final)))
         if s[0] == "expr_stmt" and s[1][0] == "call":
             e = s[1]
             path = None
@@ -1200,6 +1259,23 @@ class Gen:
                 if akey is None or akey not in self.env or skey not in self.env: raise Untranslatable("external call argument")
                 sg, _ = self.env[skey]; ag, _ = self.env[akey]
                 return "match %s %s %s with None => None | Some (%s, %s) =>\n  %s end" % (fn_, sg, ag, sg, ag, self.stmts(rest, final))
+        if s[0] == "expr_stmt" and s[1][0] == "call" and s[1][2] in ("clone_from_slice", "copy_from_slice") and len(s[1][3]) == 1 and s[1][1][0] == "slice":
+            # ARR[lo..hi].clone_from_slice(&SRC): bounds of the range, then equal lengths, are checked (panics)
+            sl = s[1][1]
+            key = self.lhs_key(sl[1])
+            if key is None or key not in self.env: raise Untranslatable("clone_from_slice target")
+            g, ta = self.env[key]
+            def kcs(src_, ts):
+                if not (isinstance(ts, tuple) and ts[0] == "arr"): raise Untranslatable("clone_from_slice source")
+                def klo(lo, tl):
+                    def khi(hi, th):
+                        return ("if N.of_nat (length %s) <? %s then None else if %s <? %s then None else\n  if negb (N.of_nat (length %s) =? %s - %s) then None else\n  let %s := (firstn (N.to_nat %s) %s ++ %s ++ skipn (N.to_nat %s) %s) in\n  %s"
+                                % (g, hi, hi, lo, src_, hi, lo, g, lo, g, src_, hi, g, self.stmts(rest, final)))
+                    if sl[3] is None: return khi("(N.of_nat (length %s))" % g, "usize")
+                    return self.expr(sl[3], khi, "usize")
+                if sl[2] is None: return klo("0", "usize")
+                return self.expr(sl[2], klo, "usize")
+            return self.expr(s[1][3][0], kcs)
         if s[0] == "expr_stmt" and s[1][0] == "call" and s[1][2] == "reverse" and not s[1][3] and s[1][1][0] == "slice":
             sl = s[1][1]
             key = self.lhs_key(sl[1])
